@@ -9,6 +9,8 @@ cd "$W/src-tree"
 export CARGO_TARGET_DIR=$W/target CARGO_NET_OFFLINE=true
 # flags from the demo header
 FLAGS=$(grep -o -- '--features[ =][a-z,_ ]*' $S/demo.rs | head -1)
+NDF=$(head -15 $S/demo.rs | grep -q -- '--no-default-features' && echo "--no-default-features" || true)
+FLAGS="$FLAGS $NDF"
 REL=$(grep -q -- '--release' $S/demo.rs && echo "--release" || true)
 cp $S/demo.rs tests/zz_seed_demo.rs
 r_clean=$(cargo test --offline $FLAGS --test zz_seed_demo 2>&1 | grep -E "^test result|error(\[|:)" | head -3 | tr '\n' ' ')
